@@ -59,6 +59,32 @@ def run(ctx: Context) -> None:
             exits = [x for x in ast.walk(l) if isinstance(x, (ast.Break, ast.Return, ast.Continue))]
             rep.ob("C02.R1", fkey(tree, re_, "batch-dispatch"), ok and not exits, where(re_, l),
                    "every stream event of the batch is queued (guarded only by its type and by the stream being registered)" if ok and not exits else "stream events of a read batch can be skipped")
+        if tree == "async":
+            # once h2 has parsed a segment, the bytes are gone: the whole batch must reach the stream queues without a point
+            # at which the reading task can be cancelled (the events of OTHER streams would be silently lost)
+            rdf = h2.methods["_read_incoming_data"]
+            cfg_r = ctx.cfg(rdf)
+            pn = [n for n in cfg_r.nodes if n.ast is not None and n.kind == "stmt" and any(isinstance(c, ast.Call) and norm(c.func) == "self._h2_state.receive_data" for c in ast.walk(n.ast))]
+            bad = []
+            if pn:
+                r = cfg_r.reachable([e.dst for e in pn[0].succ if e.kind != "exc"], follow=lambda e: e.kind != "exc")
+                bad = [n for n in cfg_r.nodes if n.id in r and n.may_cancel()]
+            rep.ob("C02.R1", fkey(tree, rdf, "parse-to-return-atomic"), bool(pn) and not bad, where(rdf, bad[0].ast if bad else None),
+                   "no cancellation point between receive_data() and handing the parsed batch back" if not bad else
+                   f"cancellation point `{bad[0].text()}` after receive_data(): a reader cancelled there drops the whole parsed batch - DATA of other streams is lost and their bodies end silently short")
+            cfg_e = ctx.cfg(re_)
+            en = [n for n in cfg_e.nodes if n.kind == "stmt" and isinstance(n.ast, ast.Assign) and norm(n.ast.targets[0]) == "events"]
+            bad = []
+            if en and ev_loops:
+                loop_ids = {id(x) for x in ast.walk(ev_loops[0])}
+                for n in cfg_e.nodes:
+                    a = n.ast.context_expr if isinstance(n.ast, ast.withitem) else n.ast
+                    if a is not None and id(a) in loop_ids and n.may_cancel():
+                        bad.append(n)
+            rep.ob("C02.R1", fkey(tree, re_, "batch-dispatch-atomic"), bool(en) and not bad, where(re_, bad[0].ast if bad else None),
+                   "the dispatch loop over a parsed batch contains no cancellation point" if not bad else
+                   f"cancellation points inside the dispatch loop over an already parsed batch ({[b.text()[:50] for b in bad[:4]]}): if the reading task is cancelled there, "
+                   "the not yet dispatched events - DATA of other streams - are dropped and those responses complete silently short", [b.text() for b in bad])
         rd = h2.methods["_read_incoming_data"]
         rets = [norm(r.value) for r in own_nodes(rd.node) if isinstance(r, ast.Return) and r.value is not None]
         src = [norm(a) for r in own_nodes(rd.node) if isinstance(r, ast.Return) and r.value is not None for a in ctx.prov.expand(r.value, rd, r, depth=1)]
